@@ -325,7 +325,31 @@ func opsBSI(cfg bsiCfg, quick bool) []opB {
 		if kind == 0 {
 			continue
 		}
-		copyOp("b = ("+kname+").Unmarshal(Marshal(b))", func(w *WB) (bsiAPI, *ev.Fail) {
+		// (checked and discarded: the receiver has its own range, the world keeps the index it was configured with)
+		checkOp := func(name string, f func(w *WB) (bsiAPI, *ev.Fail)) {
+			mk(name, func(w *WB) (string, *ev.Fail) {
+				n, fl := f(w)
+				if fl != nil {
+					return "", fl
+				}
+				if n == nil {
+					return "unsupported", nil
+				}
+				if !n.Equals(w.B) || !w.B.Equals(n) {
+					return "", fail(name, "not-equal", "%s yields an index that is not Equal to the original (map %s)", name, w.M.key())
+				}
+				keep := w.B
+				w.B = n
+				var e int64
+				f2 := checkBSI(cfg, w, 1, &e)
+				w.B = keep
+				if f2 != nil {
+					f2.What = name + ": " + f2.What
+				}
+				return "", f2
+			})
+		}
+		checkOp("("+kname+").Unmarshal(Marshal(b))", func(w *WB) (bsiAPI, *ev.Fail) {
 			for _, v := range w.M {
 				if !v.IsInt64() {
 					return nil, nil // the receivers are created for the int64 range
@@ -335,6 +359,15 @@ func opsBSI(cfg bsiCfg, quick bool) []opB {
 			if err != nil {
 				return nil, fail("UnmarshalBinary", "error", "Marshal/UnmarshalBinary into %s failed: %v", kname, err)
 			}
+			// the receiver was created for the whole int64 range (kind 1) or is auto-sized (kind 2): values of that
+			// range must still be storable after the decode
+			for _, v := range []int64{1 << 40, -(1 << 40)} {
+				n.SetValue(987654, v)
+				if g, ok := n.GetValue(987654); !ok || g != v {
+					return nil, fail("UnmarshalBinary", "receiver-lost-width", "after decoding into %s, SetValue(987654,%d) reads back (%d,%v): the receiver lost the width it was created for (map %s)", kname, v, g, ok, w.M.key())
+				}
+			}
+			n.ClearValues([]uint64{987654})
 			return n, nil
 		})
 	}
@@ -393,6 +426,38 @@ func checkBSI(cfg bsiCfg, w *WB, listLen int, evals *int64) *ev.Fail {
 	}
 	if s := w.B.PlaneLeak(); s != "" {
 		return fail("planes", "leak", "%s [map %s]", s, w.M.key())
+	}
+	// Equals is what the property uses to relate an index to its copies, so it has to tell maps apart whatever the
+	// histories (and hence widths) of the two indexes: a fresh index built from the same map is Equal, one built from
+	// the map with a single value changed is not
+	if len(w.M) > 0 && len(w.M) <= 4 {
+		build := func(m bsiModel) bsiAPI {
+			o := w.new(w.Auto, w.Max, w.Min)
+			for _, c := range m.cols() {
+				if v := m[c]; v.IsInt64() {
+					o.SetValue(c, v.Int64())
+				} else if !o.SetBig(c, v) {
+					return nil
+				}
+			}
+			return o
+		}
+		if same := build(w.M); same != nil {
+			if !same.Equals(w.B) || !w.B.Equals(same) {
+				return fail("Equals", "same-map-not-equal", "an index built afresh from the same map is not Equal to this one [map %s, %d planes vs %d]", w.M.key(), w.B.Planes(), same.Planes())
+			}
+			c0 := w.M.cols()[0]
+			for _, alt := range []int64{-1, 0, 3} {
+				if av := bigOf(alt); w.M[c0].Cmp(av) != 0 && w.inRange(av) {
+					other := w.M.clone()
+					other[c0] = av
+					if o := build(other); o != nil && (o.Equals(w.B) || w.B.Equals(o)) {
+						return fail("Equals", "different-map-equal", "an index holding %s is Equal to this one [map %s]", other.key(), w.M.key())
+					}
+				}
+			}
+			n += 4
+		}
 	}
 	// column lists with duplicates and absent columns
 	lcols := append(append([]uint64{}, cfg.Cols...), 9)
